@@ -90,7 +90,7 @@ def load_known():
         return json.load(fh)
 
 
-def finish(run, seed=0):
+def finish(run, seed=0, write=True):
     """print report, write evidence + replays, return exit code"""
     known = load_known()
     known_keys = {}
@@ -101,18 +101,20 @@ def finish(run, seed=0):
     new = [o for o in viol if o.key not in known_keys]
     old = [o for o in viol if o.key in known_keys]
     rep_dir = os.path.join(VERIF, "replays")
-    os.makedirs(rep_dir, exist_ok=True)
-    # remove stale replays for this property
-    for f in os.listdir(rep_dir):
-        if f.startswith(run.prop + "-"):
-            os.unlink(os.path.join(rep_dir, f))
+    if write:
+        os.makedirs(rep_dir, exist_ok=True)
+        # remove stale replays for this property
+        for f in os.listdir(rep_dir):
+            if f.startswith(run.prop + "-"):
+                os.unlink(os.path.join(rep_dir, f))
     for o in old:
         print("KNOWN-FINDING: property=%s %s -- %s" % (run.prop, o.key, known_keys[o.key].get("what", o.detail)))
     for i, o in enumerate(new):
         rp = os.path.join(rep_dir, "%s-%d.json" % (run.prop, i))
-        with open(rp, "w") as fh:
-            json.dump({"property": run.prop, "obligation": o.to_json(), "tier": run.tier}, fh, indent=1)
-        print("%s: [%s] %s" % (o.loc, o.rule, o.detail))
+        if write:
+            with open(rp, "w") as fh:
+                json.dump({"property": run.prop, "obligation": o.to_json(), "tier": run.tier}, fh, indent=1)
+        print("%s: [%s] %s\n      key: %s" % (o.loc, o.rule, o.detail, o.key))
         if o.path:
             for p in o.path[:40]:
                 print("      " + p)
@@ -155,9 +157,10 @@ def finish(run, seed=0):
         "violations": len(new),
     }
     evd = os.path.join(VERIF, "evidence")
-    os.makedirs(evd, exist_ok=True)
-    with open(os.path.join(evd, run.prop + ".json"), "w") as fh:
-        json.dump(ev, fh, indent=1)
+    if write:
+        os.makedirs(evd, exist_ok=True)
+        with open(os.path.join(evd, run.prop + ".json"), "w") as fh:
+            json.dump(ev, fh, indent=1)
     print("%s %s: %d obligations, %d discharged (%d by listed exception), %d known finding(s), %d new violation(s) [%.1fs]" % (
         run.prop, run.tier, len(run.obs), n_ok + n_ex, n_ex, len(old), len(new), wall))
     if run.broken:
